@@ -5,9 +5,12 @@ From TLX Require Import Model.Bits Model.CLang Model.Netlist Model.GenDense Proo
 Import ListNotations.
 
 (* the dispatch chain of the current source: unknown modules raise (they are not skipped), nn.Identity is a no-op,
-   and the structural validation is called and contains every check the model mirrors *)
+   the structural validation is called and contains every check the model mirrors; an instance of a handled class with its own
+   forward is refused before the chain (so MForeign below includes such subclasses), a GroupSum offset is refused (the library
+   returns the counts), and code is generated from the model as it is when compile() / get_c_code() is called *)
 Theorem C14_dispatch : parse_else = ElseRaise /\ parse_calls_validate = true /\ parse_requires_logic_layer = true
-  /\ forallb snd structure_checks = true /\ flatten_default_only = true.
+  /\ forallb snd structure_checks = true /\ flatten_default_only = true
+  /\ override_forward_refused = true /\ groupsum_offset_refused = true /\ codegen_reparses_model = true.
 Proof. repeat split; vm_compute; reflexivity. Qed.
 
 (* if the constructor succeeds then: no foreign / nested / unsupported module occurs, every layer module of the
